@@ -112,6 +112,21 @@ def call_method(ex, objtype, name, objn, arrow, args, n, decl):
             return RefVal(pv.path)
         if name in ('operator bool',):
             return ex.tobool(ex.ev(objn), None)
+    if re.match(r'^(std::)?(__\w+::)?(__normal_iterator<|_Bit_iterator|_Bit_const_iterator)', t) or t.endswith('*'):
+        return iterator_method(ex, name, objn, args, n)
+    if re.match(r'^(std::)?(__\w+::)?_Bit_reference', t):
+        v = ex.ev(objn)
+        if name in ('operator bool',):
+            return ex.read(v.path) if isinstance(v, RefVal) else v
+        if name == 'operator=':
+            x = ex.ev(args[0])
+            if isinstance(x, RefVal):
+                x = ex.read(x.path)
+            ex.write(v.path, x)
+            return v
+        if name == 'flip':
+            ex.write(v.path, z3.Not(ex.read(v.path)))
+            return None
     if re.match(r'^(std::)?complex<', t):
         v = ex.ev(objn)
         if name == 'real':
@@ -119,6 +134,52 @@ def call_method(ex, objtype, name, objn, arrow, args, n, decl):
         if name == 'imag':
             return v.f['im']
     raise Unsupported('method %s::%s (line %s)' % (t, name, n.get('_line')))
+
+
+def iterator_method(ex, name, objn, args, n):
+    if name in ('operator++', 'operator--', 'operator+=', 'operator-='):
+        p = ex.lv(objn)
+        it = ex.read(p)
+        d = z3.IntVal(1)
+        if name in ('operator+=', 'operator-='):
+            d = ex.ev(args[0])
+        if name in ('operator--', 'operator-='):
+            d = -d
+        new = PtrVal(it.path, it.off + d, it.el)
+        ex.write(p, new)
+        if name in ('operator++', 'operator--') and args:
+            return it      # postfix
+        return RefVal(p)
+    it = ex.ev(objn)
+    if isinstance(it, RefVal):
+        it = ex.read(it.path)
+    if not isinstance(it, PtrVal):
+        raise Unsupported('iterator method on %r' % (it,))
+    if name == 'operator*':
+        return RefVal(ex.ptr_elem(it, z3.IntVal(0), n, 'iterator'))
+    if name == 'operator->':
+        return PtrVal(ex.ptr_elem(it, z3.IntVal(0), n, 'iterator'), None)
+    if name == 'operator[]':
+        return RefVal(ex.ptr_elem(it, ex.ev(args[0]), n, 'iterator'))
+    if name == 'operator+':
+        return PtrVal(it.path, it.off + ex.ev(args[0]), it.el)
+    if name == 'operator-':
+        x = ex.ev(args[0])
+        if isinstance(x, PtrVal):
+            return ex.ptr_binop('-', it, x, n)
+        return PtrVal(it.path, it.off - x, it.el)
+    if name == 'base':
+        return it
+    raise Unsupported('iterator method %s' % name)
+
+
+def iter_ctor(ex, t, sh, ctype, args, n):
+    if not args:
+        return PtrVal(None, z3.IntVal(0))
+    v = ex.ev(args[0])
+    if isinstance(v, RefVal):
+        v = ex.read(v.path)
+    return v
 
 
 def vector_method(ex, t, name, objn, arrow, args, n):
@@ -233,6 +294,10 @@ def range_to_vec(ex, a, b, el, n):
             nd = tmap(lambda d: z3.Lambda([j], ex.wrap_to(z3.Select(d, j + a.off), el)), src.data)
     elif sel[0] == 'int' and el[0] == 'real':
         nd = tmap(lambda d: z3.Lambda([j], z3.ToReal(z3.Select(d, j + a.off))), src.data)
+    elif sel[0] == 'real' and el[0] == 'struct' and el[1] == 'dsplib::cmplx_t':
+        # cmplx_t(const T& v): re = v, im = 0 (modelled conversion constructor, verified as cmplx_t::cmplx_t<T>)
+        nd = SVal('dsplib::cmplx_t', {'re': z3.Lambda([j], z3.Select(src.data, j + a.off)),
+                                     'im': z3.K(z3.IntSort(), z3.RealVal(0))})
     else:
         raise Unsupported('range conversion %s -> %s' % (sel, el))
     return VecVal(cnt, nd, el)
@@ -249,6 +314,8 @@ def ctor_model(ex, t, sh, ctype):
         return complex_ctor
     if sh[0] == 'ptr' and 'shared_ptr' in tt:
         return sptr_ctor
+    if sh[0] == 'ptr' and ('iterator' in tt):
+        return iter_ctor
     return None
 
 
@@ -532,3 +599,49 @@ def _bassume(ex, args, n):
 @free('__builtin_expect')
 def _bexpect(ex, args, n):
     return ex.ev(args[0])
+
+
+@free('max_element', 'min_element')
+def _maxel(ex, args, n):
+    a, b = ex.ev(args[0]), ex.ev(args[1])
+    if not (isinstance(a, PtrVal) and isinstance(b, PtrVal) and a.path is not None and a.path.same(b.path)):
+        raise Unsupported('max_element over non-contiguous range')
+    v = ex.read(a.path)
+    if isinstance(v, SVal) and set(v.f) == {'_vec'}:
+        v = v.f['_vec']
+    if len(args) > 2:
+        raise Unsupported('max_element with comparator')
+    if v.el[0] not in ('int', 'real'):
+        raise Unsupported('max_element over structs')
+    ex.oblige('bounds', 'range', z3.And(a.off >= 0, a.off <= b.off, b.off <= v.len), n)
+    j = z3.Int(ex.fresh_name('argext'))
+    k = z3.Int(ex.fresh_name('k!me'))
+    mx = callee_name(n) == 'max_element'
+    ex.assume(z3.If(a.off == b.off, j == b.off, z3.And(
+        j >= a.off, j < b.off,
+        z3.ForAll([k], z3.Implies(z3.And(k >= a.off, k < b.off),
+                                  (z3.Select(v.data, k) <= z3.Select(v.data, j)) if mx else
+                                  (z3.Select(v.data, k) >= z3.Select(v.data, j)))),
+        z3.ForAll([k], z3.Implies(z3.And(k >= a.off, k < j),
+                                  (z3.Select(v.data, k) < z3.Select(v.data, j)) if mx else
+                                  (z3.Select(v.data, k) > z3.Select(v.data, j)))))))
+    return PtrVal(a.path, j, a.el)
+
+
+def _iter_cmp(op):
+    def f(ex, args, n):
+        a, b = ex.ev(args[0]), ex.ev(args[1])
+        if isinstance(a, RefVal):
+            a = ex.read(a.path)
+        if isinstance(b, RefVal):
+            b = ex.read(b.path)
+        if isinstance(a, PtrVal) and isinstance(b, PtrVal):
+            return ex.ptr_binop(op, a, b, n)
+        if isinstance(a, PtrVal) or isinstance(b, PtrVal):
+            return ex.ptr_binop(op, a, b, n)
+        raise Unsupported('external operator%s on %r' % (op, a))
+    return f
+
+
+for _op in ('==', '!=', '<', '<=', '>', '>=', '-', '+'):
+    FREE['operator' + _op] = _iter_cmp(_op)
